@@ -9,7 +9,7 @@ open Py Xs.Bind Xs.Bind.F1 Xs.Bind.FN
 structure MetaFactsN (ft : Feat) (Γ : Ctx) (ci : ClassInfo) (m : XmlMeta) : Prop where
   clazz : m.clazz = ci.id
   qne : m.qname ≠ []
-  wild : m.wildcards = []
+  wild : m.wildcards = [] ∨ ∃ wv, m.wildcards = [wv] ∧ wildVarOK m ci wv = true
   choices : m.choices = []
   anyAttrs : m.anyAttributes = [] ∨ ∃ av, m.anyAttributes = [av] ∧ mapVarOK ci av = true
   noNilAttr : m.findAttribute xsiNil = none
@@ -19,7 +19,7 @@ structure MetaFactsN (ft : Feat) (Γ : Ctx) (ci : ClassInfo) (m : XmlMeta) : Pro
     (m.anyAttributes = [var] ∧ mapVarOK ci var = true)
   attrNodup : (m.attributeVars.map (·.qname)).Nodup
   body : match m.text with
-    | none => ∀ var ∈ m.elementVars, FN.elemVarOK ft Γ m ci var = true
+    | none => ∀ var ∈ m.elementVars, FN.elemVarOK ft Γ m ci var = true ∨ m.wildcards = [var]
     | some tv => m.elementVars = [tv] ∧ FN.textVarOK ft ci tv = true
   idxNodup : (m.elementVars.map (·.index)).Nodup
   qnNodup : (m.elementVars.map (·.qname)).Nodup
@@ -34,8 +34,13 @@ theorem metaFactsN_of {ft : Feat} {Γ : Ctx} {ci : ClassInfo} {m : XmlMeta}
     List.all_eq_true, List.any_eq_true, Bool.or_eq_true] at h
   obtain ⟨⟨⟨⟨⟨⟨⟨⟨⟨⟨⟨⟨⟨⟨⟨⟨⟨h1, _⟩, h3⟩, h4⟩, h5⟩, h6⟩, h6b⟩, h6c⟩, h7⟩, h8⟩, h9⟩, h10⟩, h11⟩, h11b⟩, h11c⟩, h12⟩,
     h13⟩, h14⟩ := h
-  refine ⟨h1, ?_, h4, h5, ?_, h6b, ?_, ?_, ?_, h9, ?_, h11, h11b, h11c, h12, h13, ?_⟩
+  refine ⟨h1, ?_, ?_, h5, ?_, h6b, ?_, ?_, ?_, h9, ?_, h11, h11b, h11c, h12, h13, ?_⟩
   · intro hq; simp [hq] at h3
+  · rcases h4 with h4 | ⟨_, h4⟩
+    · exact Or.inl h4
+    · split at h4
+      · rename_i wv hwv; exact Or.inr ⟨wv, hwv, h4⟩
+      · cases h4
   · rcases h6 with h6 | ⟨_, h6⟩
     · exact Or.inl h6
     · split at h6
@@ -172,15 +177,12 @@ theorem attrFactsN_of {ft : Feat} {e : BEnv} {Γ : Ctx} {m : XmlMeta} {ci : Clas
 /-- which of the two kinds of element var, with its default -/
 inductive ElemKindN (ft : Feat) (Γ : Ctx) (m : XmlMeta) (var : XmlVar) : Prop
   | prim (t : PT) (hc : var.clazz = none) (hp : primTypeOf var = some t) (ht : var.types = [.prim t])
-      (hd : if var.tokens || var.listElement then
-              var.default = .listFactory ∧ ¬ (var.tokens = true ∧ var.listElement = true ∧ var.nillable = true)
+      (hd : if var.tokens || var.listElement then var.default = .listFactory
             else scalarDefault var.default t = true ∧ (var.nillable = true → var.default = .none))
   | cls (c : ClassId) (m' : XmlMeta) (hc : var.clazz = some c) (htk : var.tokens = false)
       (ht : var.types = [.cls c])
       (hd : if var.listElement then var.default = .listFactory else var.default = .none)
       (hm : metaOf Γ c (targetUri m.qname) = some m')
-      (hns : ∀ k ∈ classesFor ft Γ c, ∀ mk, metaOf Γ k (targetUri m.qname) = some mk →
-        nsAgreeN ft Γ mk var.qname = true)
 
 theorem elemFactsN_of {ft : Feat} {Γ : Ctx} {m : XmlMeta} {ci : ClassInfo} {var : XmlVar}
     (MF : MetaFactsN ft Γ ci m) (hmem : var ∈ m.elementVars)
@@ -207,7 +209,17 @@ theorem elemFactsN_of {ft : Feat} {Γ : Ctx} {m : XmlMeta} {ci : ClassInfo} {var
       have hvok : FN.elemVarOK ft Γ m ci v = true := by
         have := MF.body
         cases ht : m.text with
-        | none => rw [ht] at this; exact this v hv
+        | none =>
+          rw [ht] at this
+          rcases this v hv with h | h
+          · exact h
+          · -- the wildcard has no wrapper
+            exfalso
+            rcases MF.wild with h0 | ⟨wv, hwv, hok⟩
+            · rw [h0] at h; cases h
+            · rw [hwv] at h; cases h
+              simp only [wildVarOK, Bool.and_eq_true, Option.isNone_iff_eq_none] at hok
+              rw [hok.1.1.1.1.1.1.1.1.1.1.2] at hvw; cases hvw
         | some tv =>
           rw [ht] at this
           -- a class with a text var has no wrapped var: the text var is its only element var
@@ -239,11 +251,9 @@ theorem elemFactsN_of {ft : Feat} {Γ : Ctx} {m : XmlMeta} {ci : ClassInfo} {var
         refine ElemKindN.prim t hcl hpt htp ?_
         by_cases hb : var.tokens = true ∨ var.listElement = true
         · have hb2 : (var.tokens || var.listElement) = true := by simpa using hb
-          simp only [hb, if_true, Bool.and_eq_true, decide_eq_true_eq, Bool.not_eq_true'] at hkind
+          simp only [hb, if_true, decide_eq_true_eq] at hkind
           simp only [hb2, if_true]
-          refine ⟨hkind.1, ?_⟩
-          rintro ⟨h1, h2, h3⟩
-          simp [h1, h2, h3] at hkind
+          exact hkind
         · have hb2 : (var.tokens || var.listElement) = false := by
             cases h1 : var.tokens <;> cases h2 : var.listElement <;> simp_all
           simp only [hb, if_false, Bool.and_eq_true, Bool.or_eq_true,
@@ -256,50 +266,47 @@ theorem elemFactsN_of {ft : Feat} {Γ : Ctx} {m : XmlMeta} {ci : ClassInfo} {var
     | some c =>
       rw [hcl] at hkind
       simp only [Bool.and_eq_true, decide_eq_true_eq, Bool.not_eq_true'] at hkind
-      obtain ⟨⟨⟨⟨htk, hty⟩, hd⟩, hm⟩, hall⟩ := hkind
+      obtain ⟨⟨⟨htk, hty⟩, hd⟩, hm⟩ := hkind
       cases hm' : metaOf Γ c (targetUri m.qname) with
       | none => simp [hm'] at hm
       | some m' =>
-        refine ElemKindN.cls c m' hcl htk hty ?_ hm' ?_
-        · split at hd <;> simp_all
-        · intro k hk mk hmk
-          have := (List.all_eq_true.1 hall) k hk
-          simpa [hmk] using this
+        refine ElemKindN.cls c m' hcl htk hty ?_ hm'
+        split at hd <;> simp_all
   · intro hn
     rcases hnl with h | h
     · rw [hn] at h; cases h
     · exact h
 
-theorem mem_classesFor_self (ft : Feat) (Γ : Ctx) (c : ClassId) : c ∈ classesFor ft Γ c := by
-  unfold classesFor; split <;> simp
+/-- the facts about the list wildcard of a class -/
+theorem wildFactsN_of {ft : Feat} {Γ : Ctx} {m : XmlMeta} {ci : ClassInfo} {wv : XmlVar}
+    (MF : MetaFactsN ft Γ ci m) (hw : m.wildcards = [wv]) (hok : wildVarOK m ci wv = true) :
+    WildFactsN m wv ∧ fieldAgreesN ci wv = true := by
+  simp only [wildVarOK, Bool.and_eq_true, decide_eq_true_eq, Bool.not_eq_true',
+    Option.isNone_iff_eq_none, List.isEmpty_iff] at hok
+  obtain ⟨⟨⟨⟨⟨⟨⟨⟨⟨⟨⟨⟨⟨⟨⟨⟨⟨h1, h2⟩, h3⟩, h4⟩, h5⟩, h6⟩, h7⟩, h8⟩, h9⟩, h10⟩, h11⟩, h12⟩, h13⟩, h14⟩, h15⟩,
+    h16⟩, _⟩, h18⟩ := hok
+  refine ⟨⟨?_, h2, h3, h4, h5, h6, h7, h8, h9, h10, h11, h12, h13, ?_, h15, h16, hw, MF.choices⟩, h18⟩
+  · simpa [VarCore.isWildcard] using h1
+  · intro h; rw [h] at h14; simp at h14
 
-theorem mem_classesFor_sub {ft : Feat} {Γ : Ctx} {c k : ClassId} (hi : ft.inherit = true)
-    {ci : ClassInfo} (hfind : Γ.find k = some ci) (hsub : Γ.isSubclass k c = true) :
-    k ∈ classesFor ft Γ c := by
-  unfold classesFor
-  rw [if_pos hi]
-  by_cases hk : k = c
-  · simp [hk]
-  · refine List.mem_cons_of_mem _ (List.mem_filter.2 ⟨?_, by simp [hk, hsub]⟩)
-    have hmem : ci ∈ Γ.classes := List.mem_of_find?_eq_some hfind
-    exact List.mem_map.2 ⟨ci, hmem, find_id hfind⟩
+/-- every var of the element content: a declared element or the list wildcard -/
+theorem elemOrWild {ft : Feat} {Γ : Ctx} {m : XmlMeta} {ci : ClassInfo}
+    (MF : MetaFactsN ft Γ ci m) (ht : m.text = none) {var : XmlVar} (hv : var ∈ m.elementVars) :
+    FN.elemVarOK ft Γ m ci var = true ∨ (WildFactsN m var ∧ fieldAgreesN ci var = true) := by
+  have hb := MF.body
+  rw [ht] at hb
+  rcases hb var hv with h | h
+  · exact Or.inl h
+  · rcases MF.wild with h0 | ⟨wv, hwv, hok⟩
+    · rw [h0] at h; cases h
+    · rw [hwv] at h; cases h
+      exact Or.inr (wildFactsN_of MF hwv hok)
 
-/-- the generator and the parser look the class `k` of an item of `var` up under different
-namespaces, with the same outcome -/
-theorem nsAgreeN_var {ft : Feat} {Γ : Ctx} {m : XmlMeta} {q : QN} (h : nsAgreeN ft Γ m q = true)
-    {var : XmlVar} (hmem : var ∈ m.elementVars) {c : ClassId} (hcl : var.clazz = some c)
-    {k : ClassId} (hk : k ∈ classesFor ft Γ c) :
-    (metaOf Γ k (targetUri q)).map dropQ = (metaOf Γ k (targetUri m.qname)).map dropQ := by
-  simp only [nsAgreeN, List.all_eq_true] at h
-  have := h var hmem
-  simp only [hcl, List.all_eq_true, decide_eq_true_eq] at this
-  exact this k hk
-
-theorem nsAgreeN_self (ft : Feat) (Γ : Ctx) (m : XmlMeta) : nsAgreeN ft Γ m m.qname = true := by
-  simp only [nsAgreeN, List.all_eq_true]
-  intro w _
-  split
-  · rfl
-  · simp
+theorem mixedContent_false {ft : Feat} {Γ : Ctx} {m : XmlMeta} {ci : ClassInfo}
+    (MF : MetaFactsN ft Γ ci m) : m.mixedContent = false := by
+  rcases MF.wild with h | ⟨wv, h, hok⟩
+  · simp [XmlMeta.mixedContent, h]
+  · have := (wildFactsN_of MF h hok).1.mixed
+    simp [XmlMeta.mixedContent, h, this]
 
 end Proofs.C01
